@@ -127,91 +127,160 @@ theorem canonical_idem (s : Str) (h : isFqdn (fqdn s) = true) : canonical (canon
 
 /-! ### the suffix walk -/
 
-theorem mem_dotSuffixes (k s : Str) :
-    s ∈ dotSuffixes k ↔ s ≠ [] ∧ ∃ pre, k = pre ++ '.' :: s := by
-  induction k with
-  | nil => simp [dotSuffixes]
+/-- escape state after reading `s` from state `e` (a dot is an ordinary octet here). -/
+def escAfter : Bool → Str → Bool
+  | e, [] => e
+  | true, _ :: t => escAfter false t
+  | false, c :: t => if c = '\\' then escAfter true t else escAfter false t
+
+theorem escAfter_append (e : Bool) (a b : Str) : escAfter e (a ++ b) = escAfter (escAfter e a) b := by
+  induction a generalizing e with
+  | nil => rfl
   | cons c t ih =>
-    unfold dotSuffixes
-    by_cases hc : c = '.'
-    · subst hc
-      simp only [if_true]
-      by_cases ht : t = []
-      · subst ht
-        simp only [if_true, List.not_mem_nil, false_iff, not_and, not_exists]
-        intro hs pre h
+    cases e with
+    | true => simp only [List.cons_append, escAfter]; exact ih false
+    | false =>
+      simp only [List.cons_append, escAfter]
+      split
+      · exact ih true
+      · exact ih false
+
+/-- the candidates of the walk: the non-empty remainders behind a dot that is
+reached with no escape open. -/
+theorem mem_dotSuffixesAux (e : Bool) (k s : Str) :
+    s ∈ dotSuffixesAux e k ↔ s ≠ [] ∧ ∃ pre, k = pre ++ '.' :: s ∧ escAfter e pre = false := by
+  induction k generalizing e with
+  | nil => simp [dotSuffixesAux]
+  | cons c t ih =>
+    cases e with
+    | true =>
+      simp only [dotSuffixesAux, ih false]
+      constructor
+      · rintro ⟨hs, pre, rfl, hp⟩
+        exact ⟨hs, c :: pre, rfl, by simpa [escAfter] using hp⟩
+      · rintro ⟨hs, pre, h, hp⟩
         cases pre with
-        | nil => simp only [List.nil_append, List.cons.injEq, true_and] at h; exact hs h.symm
+        | nil => simp [escAfter] at hp
         | cons a p =>
           simp only [List.cons_append, List.cons.injEq] at h
-          have := congrArg List.length h.2
-          simp at this
-      · simp only [ht, if_false, List.mem_cons, ih]
+          exact ⟨hs, p, h.2, by simpa [escAfter] using hp⟩
+    | false =>
+      simp only [dotSuffixesAux]
+      by_cases hb : c = '\\'
+      · subst hb
+        simp only [if_true, ih true]
         constructor
-        · rintro (rfl | ⟨hs, pre, rfl⟩)
-          · exact ⟨ht, [], rfl⟩
-          · exact ⟨hs, '.' :: pre, rfl⟩
-        · rintro ⟨hs, pre, h⟩
+        · rintro ⟨hs, pre, rfl, hp⟩
+          exact ⟨hs, '\\' :: pre, rfl, by simpa [escAfter] using hp⟩
+        · rintro ⟨hs, pre, h, hp⟩
           cases pre with
-          | nil =>
-            simp only [List.nil_append, List.cons.injEq, true_and] at h
-            exact Or.inl h.symm
+          | nil => simp at h
           | cons a p =>
             simp only [List.cons_append, List.cons.injEq] at h
-            exact Or.inr ⟨hs, p, h.2⟩
-    · simp only [hc, if_false, ih]
-      constructor
-      · rintro ⟨hs, pre, rfl⟩
-        exact ⟨hs, c :: pre, rfl⟩
-      · rintro ⟨hs, pre, h⟩
-        cases pre with
-        | nil => simp only [List.nil_append, List.cons.injEq] at h; exact absurd h.1 hc
-        | cons a p =>
-          simp only [List.cons_append, List.cons.injEq] at h
-          exact ⟨hs, p, h.2⟩
+            obtain ⟨rfl, h2⟩ := h
+            exact ⟨hs, p, h2, by simpa [escAfter] using hp⟩
+      · simp only [hb, if_false]
+        by_cases hc : c = '.'
+        · subst hc
+          simp only [if_true]
+          by_cases ht : t = []
+          · subst ht
+            simp only [if_true, List.not_mem_nil, false_iff, not_and, not_exists]
+            intro hs pre h
+            cases pre with
+            | nil => simp only [List.nil_append, List.cons.injEq, true_and] at h; exact absurd h.symm hs
+            | cons a p =>
+              simp only [List.cons_append, List.cons.injEq] at h
+              have := congrArg List.length h.2
+              simp at this
+          · simp only [ht, if_false, List.mem_cons, ih false]
+            constructor
+            · rintro (rfl | ⟨hs, pre, rfl, hp⟩)
+              · exact ⟨ht, [], rfl, rfl⟩
+              · exact ⟨hs, '.' :: pre, rfl, by simpa [escAfter] using hp⟩
+            · rintro ⟨hs, pre, h, hp⟩
+              cases pre with
+              | nil =>
+                simp only [List.nil_append, List.cons.injEq, true_and] at h
+                exact Or.inl h.symm
+              | cons a p =>
+                simp only [List.cons_append, List.cons.injEq] at h
+                obtain ⟨rfl, h2⟩ := h
+                exact Or.inr ⟨hs, p, h2, by simpa [escAfter] using hp⟩
+        · simp only [hc, if_false, ih false]
+          constructor
+          · rintro ⟨hs, pre, rfl, hp⟩
+            exact ⟨hs, c :: pre, rfl, by simpa [escAfter, hb] using hp⟩
+          · rintro ⟨hs, pre, h, hp⟩
+            cases pre with
+            | nil => simp only [List.nil_append, List.cons.injEq] at h; exact absurd h.1 hc
+            | cons a p =>
+              simp only [List.cons_append, List.cons.injEq] at h
+              obtain ⟨rfl, h2⟩ := h
+              exact ⟨hs, p, h2, by simpa [escAfter, hb] using hp⟩
+
+theorem mem_dotSuffixes (k s : Str) :
+    s ∈ dotSuffixes k ↔ s ≠ [] ∧ ∃ pre, k = pre ++ '.' :: s ∧ escAfter false pre = false :=
+  mem_dotSuffixesAux false k s
 
 theorem dotSuffixes_trans (k s t : Str) (h1 : s ∈ dotSuffixes k) (h2 : t ∈ dotSuffixes s) :
     t ∈ dotSuffixes k := by
   rw [mem_dotSuffixes] at *
-  obtain ⟨_, p1, rfl⟩ := h1
-  obtain ⟨ht, p2, rfl⟩ := h2
-  exact ⟨ht, p1 ++ '.' :: p2, by simp⟩
+  obtain ⟨_, p1, rfl, e1⟩ := h1
+  obtain ⟨ht, p2, rfl, e2⟩ := h2
+  refine ⟨ht, p1 ++ '.' :: p2, by simp, ?_⟩
+  rw [escAfter_append, e1]
+  simpa [escAfter] using e2
 
 theorem dotSuffixes_length_lt (k s : Str) (h : s ∈ dotSuffixes k) : s.length < k.length := by
   rw [mem_dotSuffixes] at h
-  obtain ⟨_, p, rfl⟩ := h
+  obtain ⟨_, p, rfl, _⟩ := h
   simp; omega
 
-/-- text without a dot glued in front of a name adds no candidate. -/
-theorem dotSuffixes_append_nodot (pre e : Str) (h : '.' ∉ pre) :
-    dotSuffixes (pre ++ e) = dotSuffixes e := by
-  induction pre with
-  | nil => rfl
-  | cons c t ih =>
-    have hc : c ≠ '.' := fun e => h (by simp [e])
-    have ht : '.' ∉ t := fun m => h (List.mem_cons_of_mem _ m)
-    simp only [List.cons_append]
-    rw [dotSuffixes]
-    simp only [hc, if_false]
-    exact ih ht
+/-- text without a dot glued in front of `e`: every candidate is a proper remainder of `e`. -/
+theorem dotSuffixes_glued_lt (pre e s : Str) (h : '.' ∉ pre) (hs : s ∈ dotSuffixes (pre ++ e)) :
+    s.length < e.length := by
+  rw [mem_dotSuffixes] at hs
+  obtain ⟨_, p, hp, _⟩ := hs
+  rcases List.append_eq_append_iff.mp hp with ⟨a', _, he⟩ | ⟨c', hpre, hc⟩
+  · rw [he]; simp; omega
+  · cases c' with
+    | nil => simp only [List.nil_append] at hc; rw [← hc]; simp
+    | cons x r =>
+      simp only [List.cons_append, List.cons.injEq] at hc
+      exact absurd (by rw [hpre, ← hc.1]; simp) h
 
-theorem dotSuffixes_lower (k : Str) : dotSuffixes (lower k) = (dotSuffixes k).map lower := by
-  induction k with
-  | nil => rfl
+theorem dotSuffixesAux_lower (e : Bool) (k : Str) :
+    dotSuffixesAux e (lower k) = (dotSuffixesAux e k).map lower := by
+  induction k generalizing e with
+  | nil => cases e <;> rfl
   | cons c t ih =>
-    have : lower (c :: t) = lowerChar c :: lower t := rfl
-    rw [this]
-    unfold dotSuffixes
-    by_cases hc : c = '.'
-    · subst hc
-      have : lowerChar '.' = '.' := (lowerChar_dot '.').mpr rfl
-      simp only [this, if_true]
-      by_cases ht : t = []
-      · subst ht; rfl
-      · have ht' : lower t ≠ [] := fun e => ht ((lower_eq_nil t).mp e)
-        simp only [ht, ht', if_false, List.map_cons, ih]
-    · have h' : ¬ lowerChar c = '.' := fun e => hc ((lowerChar_dot c).mp e)
-      simp only [hc, h', if_false, ih]
+    have hcons : lower (c :: t) = lowerChar c :: lower t := rfl
+    rw [hcons]
+    cases e with
+    | true => simp only [dotSuffixesAux]; exact ih false
+    | false =>
+      simp only [dotSuffixesAux]
+      by_cases hb : c = '\\'
+      · subst hb
+        have : lowerChar '\\' = '\\' := (lowerChar_bs _).mpr rfl
+        simp only [this, if_true]
+        exact ih true
+      · have hb' : ¬ lowerChar c = '\\' := fun e => hb ((lowerChar_bs c).mp e)
+        simp only [hb, hb', if_false]
+        by_cases hc : c = '.'
+        · subst hc
+          have : lowerChar '.' = '.' := (lowerChar_dot '.').mpr rfl
+          simp only [this, if_true]
+          by_cases ht : t = []
+          · subst ht; rfl
+          · have ht' : lower t ≠ [] := fun e => ht ((lower_eq_nil t).mp e)
+            simp only [ht, ht', if_false, List.map_cons, ih false]
+        · have h' : ¬ lowerChar c = '.' := fun e => hc ((lowerChar_dot c).mp e)
+          simp only [hc, h', if_false, ih false]
+
+theorem dotSuffixes_lower (k : Str) : dotSuffixes (lower k) = (dotSuffixes k).map lower :=
+  dotSuffixesAux_lower false k
 
 /-! ### `matchHierarchy` and `Exists` as plain statements -/
 
@@ -264,9 +333,17 @@ theorem Hit_of_suffix (k s : Str) (l : List Str) (hs : s ∈ dotSuffixes k) (h :
 
 /-! ### label lists and their presentation form -/
 
-/-- a label as the theorems need it: not empty, and no `'.'` character in its
-presentation (i.e. no escaped dot inside the label). -/
-def LabelOK (l : Str) : Prop := l ≠ [] ∧ '.' ∉ l
+/-- the escape automaton of the walk run over ONE label: `none` if it meets an
+unescaped dot, otherwise the escape state at the end of the label. -/
+def labelScan : Bool → Str → Option Bool
+  | e, [] => some e
+  | true, _ :: t => labelScan false t
+  | false, c :: t => if c = '\\' then labelScan true t else if c = '.' then none else labelScan false t
+
+/-- a label in presentation form, as `miekg/dns` renders and accepts it: not
+empty, every dot inside it escaped, no dangling backslash at its end.  Escaped
+dots (`x\.y`), escaped backslashes and `\DDD` are all allowed. -/
+def LabelOK (l : Str) : Prop := l ≠ [] ∧ labelScan false l = some false
 
 def NameOK (n : Name) : Prop := ∀ l ∈ n, LabelOK l
 
@@ -281,24 +358,46 @@ theorem join_eq_nil (n : Name) : join n = [] ↔ n = [] := by
   | nil => simp [join]
   | cons l t => simp [join]
 
-theorem append_dot_inj (l l' x y : Str) (hl : '.' ∉ l) (hl' : '.' ∉ l')
-    (h : l ++ '.' :: x = l' ++ '.' :: y) : l = l' ∧ x = y := by
-  induction l generalizing l' with
+theorem append_dot_inj (e : Bool) (l l' x y : Str) (hl : labelScan e l = some false)
+    (hl' : labelScan e l' = some false) (h : l ++ '.' :: x = l' ++ '.' :: y) : l = l' ∧ x = y := by
+  induction l generalizing l' e with
   | nil =>
+    simp only [labelScan, Option.some.injEq] at hl
+    subst hl
     cases l' with
     | nil => simpa using h
     | cons c t =>
       simp only [List.nil_append, List.cons_append, List.cons.injEq] at h
-      exact absurd (by simp [← h.1]) hl'
+      rw [← h.1] at hl'
+      simp [labelScan] at hl'
   | cons c t ih =>
     cases l' with
     | nil =>
+      simp only [labelScan, Option.some.injEq] at hl'
+      subst hl'
       simp only [List.nil_append, List.cons_append, List.cons.injEq] at h
-      exact absurd (by simp [h.1]) hl
+      rw [h.1] at hl
+      simp [labelScan] at hl
     | cons c' t' =>
       simp only [List.cons_append, List.cons.injEq] at h
-      have := ih t' (fun m => hl (List.mem_cons_of_mem _ m)) (fun m => hl' (List.mem_cons_of_mem _ m)) h.2
-      exact ⟨by rw [h.1, this.1], this.2⟩
+      obtain ⟨rfl, h2⟩ := h
+      cases e with
+      | true =>
+        simp only [labelScan] at hl hl'
+        have := ih false t' hl hl' h2
+        exact ⟨by rw [this.1], this.2⟩
+      | false =>
+        simp only [labelScan] at hl hl'
+        by_cases hb : c = '\\'
+        · simp only [hb, if_true] at hl hl'
+          have := ih true t' hl hl' h2
+          exact ⟨by rw [this.1], this.2⟩
+        · simp only [hb, if_false] at hl hl'
+          by_cases hc : c = '.'
+          · simp [hc] at hl
+          · simp only [hc, if_false] at hl hl'
+            have := ih false t' hl hl' h2
+            exact ⟨by rw [this.1], this.2⟩
 
 theorem join_inj (a b : Name) (ha : NameOK a) (hb : NameOK b) (h : join a = join b) : a = b := by
   induction a generalizing b with
@@ -311,22 +410,51 @@ theorem join_inj (a b : Name) (ha : NameOK a) (hb : NameOK b) (h : join a = join
     | nil => simp [join] at h
     | cons l' t' =>
       simp only [join] at h
-      have := append_dot_inj l l' _ _ (ha l (by simp)).2 (hb l' (by simp)).2 h
+      have := append_dot_inj false l l' _ _ (ha l (by simp)).2 (hb l' (by simp)).2 h
       rw [this.1, ih t' (NameOK_tail ha) (NameOK_tail hb) this.2]
 
-theorem dotSuffixes_join_cons (l : Str) (t : Name) (hl : '.' ∉ l) :
+/-- reading a whole label leaves the walk where the label's own automaton ends. -/
+theorem dotSuffixesAux_label_append (e e' : Bool) (l rest : Str) (h : labelScan e l = some e') :
+    dotSuffixesAux e (l ++ rest) = dotSuffixesAux e' rest := by
+  induction l generalizing e with
+  | nil => simp only [labelScan, Option.some.injEq] at h; subst h; rfl
+  | cons c t ih =>
+    cases e with
+    | true =>
+      simp only [labelScan] at h
+      simp only [List.cons_append, dotSuffixesAux]
+      exact ih false h
+    | false =>
+      simp only [labelScan] at h
+      simp only [List.cons_append, dotSuffixesAux]
+      by_cases hb : c = '\\'
+      · simp only [hb, if_true] at h ⊢
+        exact ih true h
+      · simp only [hb, if_false] at h ⊢
+        by_cases hc : c = '.'
+        · simp [hc] at h
+        · simp only [hc, if_false] at h ⊢
+          exact ih false h
+
+theorem dotSuffixes_join_cons (l : Str) (t : Name) (hl : labelScan false l = some false) :
     dotSuffixes (join (l :: t)) = if t = [] then [] else join t :: dotSuffixes (join t) := by
   simp only [join]
-  rw [dotSuffixes_append_nodot _ _ hl, dotSuffixes]
+  unfold dotSuffixes
+  rw [dotSuffixesAux_label_append false false l _ hl, dotSuffixesAux]
   simp only [if_true, join_eq_nil]
+  have : ¬ ('.' = '\\') := by decide
+  simp only [this, if_false]
 
-/-- the candidates of the walk over a name without escaped dots are exactly the
+theorem dotSuffixes_nil : dotSuffixes [] = [] := rfl
+theorem dotSuffixes_dot : dotSuffixes ['.'] = [] := by decide
+
+/-- the candidates of the walk over a well-formed name are exactly the
 presentation forms of its non-root strict parents. -/
 theorem mem_dotSuffixes_join (n : Name) (hn : NameOK n) (s : Str) :
     s ∈ dotSuffixes (join n) ↔ ∃ a : Name, a ≠ [] ∧ a <:+ n ∧ a ≠ n ∧ s = join a := by
   induction n with
   | nil =>
-    simp only [join, dotSuffixes, List.not_mem_nil, false_iff, not_exists, not_and]
+    simp only [join, dotSuffixes_nil, List.not_mem_nil, false_iff, not_exists, not_and]
     intro a ha hs
     exact absurd (List.suffix_nil.mp hs) ha
   | cons l t ih =>
@@ -378,15 +506,38 @@ theorem lower_pres (n : Name) : lower (pres n) = pres (lowerName n) := by
     simp only [h, this, if_false]
     exact lower_join n
 
+theorem labelScan_lower (e : Bool) (l : Str) : labelScan e (lower l) = labelScan e l := by
+  induction l generalizing e with
+  | nil => cases e <;> rfl
+  | cons c t ih =>
+    have hcons : lower (c :: t) = lowerChar c :: lower t := rfl
+    rw [hcons]
+    cases e with
+    | true => simp only [labelScan]; exact ih false
+    | false =>
+      simp only [labelScan]
+      by_cases hb : c = '\\'
+      · subst hb
+        have : lowerChar '\\' = '\\' := (lowerChar_bs _).mpr rfl
+        simp only [this, if_true]; exact ih true
+      · have hb' : ¬ lowerChar c = '\\' := fun e => hb ((lowerChar_bs c).mp e)
+        simp only [hb, hb', if_false]
+        by_cases hc : c = '.'
+        · subst hc
+          have : lowerChar '.' = '.' := (lowerChar_dot '.').mpr rfl
+          simp [this]
+        · have h' : ¬ lowerChar c = '.' := fun e => hc ((lowerChar_dot c).mp e)
+          simp only [hc, h', if_false]; exact ih false
+
 theorem NameOK_lower (n : Name) (h : NameOK n) : NameOK (lowerName n) := by
   intro l hl
   unfold lowerName at hl
   obtain ⟨x, hx, rfl⟩ := List.mem_map.mp hl
   have := h x hx
-  exact ⟨fun e => this.1 ((lower_eq_nil x).mp e), fun m => this.2 ((dot_mem_lower x).mp m)⟩
+  exact ⟨fun e => this.1 ((lower_eq_nil x).mp e), by rw [labelScan_lower]; exact this.2⟩
 
 /-- an entry the spec theorem speaks about: at least one label (not the root),
-labels without escaped dots, stored lower case. -/
+well-formed labels, stored lower case. -/
 def EntryOK (e : Name) : Prop := e ≠ [] ∧ NameOK e ∧ lowerName e = e
 
 theorem pres_of_ne_nil (n : Name) (h : n ≠ []) : pres n = join n := by
@@ -407,7 +558,7 @@ theorem join_ne_dot (a : Name) (ha : NameOK a) : join a ≠ ['.'] := by
       have := congrArg List.length h.2
       simp at this
 
-/-- **string walk = label walk** on names without escaped dots:
+/-- **string walk = label walk** on every well-formed name:
 `Hit` on presentation forms is "some entry is the name or a parent of it". -/
 theorem Hit_pres_iff (n : Name) (hn : NameOK n) (L : List Name) (hL : ∀ e ∈ L, e ≠ [] ∧ NameOK e) :
     Hit (pres n) (L.map pres) ↔ ∃ e ∈ L, e <:+ n := by
@@ -421,7 +572,7 @@ theorem Hit_pres_iff (n : Name) (hn : NameOK n) (L : List Name) (hL : ∀ e ∈ 
       · obtain ⟨e, he, hp⟩ := List.mem_map.mp h
         rw [pres_of_ne_nil e (hL e he).1] at hp
         exact absurd hp (join_ne_dot e (hL e he).2)
-      · simp [dotSuffixes] at hs
+      · simp [dotSuffixes_dot] at hs
     · rintro ⟨e, he, hs⟩
       exact absurd (List.suffix_nil.mp hs) (hL e he).1
   · rw [pres_of_ne_nil n h0]
@@ -452,7 +603,7 @@ theorem suffixHit_pres_iff (n : Name) (hn : NameOK n) (L : List Name) (hL : ∀ 
     rw [this]
     constructor
     · rintro ⟨s, hs, _⟩
-      simp [dotSuffixes] at hs
+      simp [dotSuffixes_dot] at hs
     · rintro ⟨e, he, hs, _⟩
       exact absurd (List.suffix_nil.mp hs) (hL e he).1
   · rw [pres_of_ne_nil n h0]
